@@ -274,6 +274,9 @@ class Gen:
         rng = self.rng
         gap = gap if gap is not None else self.g()
         tag = rng.choice(['', '', 'a', 'body', '_t'])
+        if rng.random() < 0.05:
+            # tags have no length limit
+            tag = 'tag_' + 'x' * rng.choice([59, 60, 61, 96, 296])
         body = rng.choice(['x', 'a;b', 'select 1; select 2', '(', 'end;',
                            ' -- c ', '/* c */', ''])
         return self.emit('dollar', '$%s$%s$%s$' % (tag, body, tag), gap)
